@@ -601,8 +601,8 @@ pub fn err_contains(e: &anyhow::Error, needle: &str) -> bool {
 
 /// Class name of a key count (part of the stratum: no random numbers).
 pub fn n_class(n: usize) -> String {
-    const EDGES: [usize; 22] = [
-        0, 1, 2, 3, 99, 100, 101, 49_999, 50_000, 99_999, 100_000, 100_001, 199_999, 200_000, 399_999, 400_000, 799_999, 800_000, 800_001, 1_500_000,
+    const EDGES: [usize; 24] = [
+        0, 1, 2, 3, 99, 100, 101, 1_000, 10_000, 49_999, 50_000, 99_999, 100_000, 100_001, 199_999, 200_000, 399_999, 400_000, 799_999, 800_000, 800_001, 1_500_000,
         12_000_000, 20_000_000,
     ];
     if EDGES.contains(&n) {
@@ -612,8 +612,8 @@ pub fn n_class(n: usize) -> String {
         0..=10 => "4..10",
         11..=98 => "11..98",
         102..=300 => "102..300",
-        301..=1_000 => "301..1e3",
-        1_001..=10_000 => "1e3..1e4",
+        301..=999 => "301..999",
+        1_001..=9_999 => "1e3..1e4",
         10_001..=49_998 => "1e4..5e4",
         50_001..=99_998 => "5e4..1e5",
         100_002..=199_998 => "1e5..2e5",
